@@ -170,7 +170,7 @@ def damage_bytes(data: bytes, opsl: list, other: bytes) -> bytes:
 
 def _all_graphs(p: onnx.ModelProto):
     out = [p.graph]
-    stack = [p.graph]
+    stack = [p.graph] + list(p.functions)  # function bodies hold control-flow subgraphs too
     while stack:
         g = stack.pop()
         for n in g.node:
